@@ -14,6 +14,7 @@ import (
 	"net/url"
 	"reflect"
 	"runtime"
+	"runtime/debug"
 	"strings"
 	"sync"
 	"sync/atomic"
@@ -514,6 +515,65 @@ func TestC18(t *testing.T) {
 		}
 	}
 
+	// encoders and decoders are functions of their argument: the result for y must not depend on the call made
+	// just before (pooled buffers, reused scratch values). Every ordered pair (x, y) over a set of ordinary and
+	// degenerate values (no subject, both subjects, empty fields, separators), per function; single OS thread
+	// and no garbage collection during a pair, so that whatever x leaves in a pool is what y picks up.
+	pairCases := 0
+	{
+		u, v := "u", "a@b"
+		vals := []*ketoapi.RelationTuple{
+			{Namespace: "n", Object: "o", Relation: "r", SubjectID: &u},
+			{Namespace: "files", Object: "readme", Relation: "owner"}, // no subject
+			{Namespace: "n", Object: "o", Relation: "r", SubjectSet: &ketoapi.SubjectSet{Namespace: "g", Object: "grp", Relation: "m"}},
+			{Namespace: "n", Object: "o", Relation: "r", SubjectID: &u, SubjectSet: &ketoapi.SubjectSet{Namespace: "g", Object: "grp", Relation: "m"}}, // both
+			{Namespace: "", Object: "", Relation: "", SubjectID: sp("")},
+			{Namespace: "n", Object: "a:b#c", Relation: "r", SubjectID: &v},
+			{Namespace: "n", Object: "o", Relation: "r", SubjectSet: &ketoapi.SubjectSet{Namespace: "", Object: "", Relation: ""}},
+			{Namespace: "a-very-long-namespace-name-to-grow-buffers", Object: strings.Repeat("x", 300), Relation: "rel", SubjectID: &u},
+		}
+		texts := []string{"n:o#r@u", "n:o#r@(g:grp#m)", "no-separators", "n:o#r@", "", "n:o#r@(g:grp#m", ":#@", "a:b#c@d@e"}
+		fns := []struct {
+			name string
+			n    int
+			f    func(i int) string
+		}{
+			{"String", len(vals), func(i int) string { return vals[i].String() }},
+			{"ToURLQuery", len(vals), func(i int) string { return vals[i].ToURLQuery().Encode() }},
+			{"ToProto", len(vals), func(i int) string { return fmt.Sprint(vals[i].ToProto()) }},
+			{"json.Marshal", len(vals), func(i int) string { b, err := json.Marshal(vals[i]); return fmt.Sprint(string(b), err) }},
+			{"FromString", len(texts), func(i int) string {
+				t, err := (&ketoapi.RelationTuple{}).FromString(texts[i])
+				return fmt.Sprintf("%+v %v", t, err)
+			}},
+		}
+		old := runtime.GOMAXPROCS(1)
+		gc := debug.SetGCPercent(-1)
+		for _, fn := range fns {
+			ref := make([]string, fn.n)
+			for y := 0; y < fn.n; y++ {
+				for k := 0; k < 3; k++ {
+					_ = safeStr(func() string { return fn.f(0) }) // a benign call first
+				}
+				ref[y] = safeStr(func() string { return fn.f(y) })
+			}
+			reported := false
+			for x := 0; x < fn.n && !reported; x++ {
+				for y := 0; y < fn.n && !reported; y++ {
+					_ = safeStr(func() string { return fn.f(x) })
+					got := safeStr(func() string { return fn.f(y) })
+					pairCases++
+					if got != ref[y] {
+						reported = true
+						run.Violation("call-order:"+fn.name, fmt.Sprintf("%s of value #%d gives %q right after %s of value #%d, and %q otherwise", fn.name, y, got, fn.name, x, ref[y]), map[string]any{"function": fn.name, "first": x, "second": y})
+					}
+				}
+			}
+		}
+		debug.SetGCPercent(gc)
+		runtime.GOMAXPROCS(old)
+	}
+
 	// the parse command reads its input through a reader: every environment answer of that reader
 	{
 		full := "n:o1#r@bob\n// comment\nn:o2#r@alice\n\nn:o3#r@(n:g#m)\n"
@@ -615,4 +675,13 @@ func lastTuple(ts []*ketoapi.RelationTuple) string {
 		return "<none>"
 	}
 	return ts[len(ts)-1].String()
+}
+
+func safeStr(f func() string) (out string) {
+	defer func() {
+		if r := recover(); r != nil {
+			out = fmt.Sprint("panic: ", r)
+		}
+	}()
+	return f()
 }
